@@ -45,6 +45,14 @@ pub fn regress_specs() -> Vec<String> {
         .collect()
 }
 
+/// Specs `probe:<file>` (one exemplar per proposal, supported and unsupported).
+pub fn probe_specs() -> Vec<String> {
+    list(&verif_root().join("corpus/featprobe"), &["wat", "wasm"])
+        .into_iter()
+        .map(|p| format!("probe:{}", p.file_name().unwrap().to_string_lossy()))
+        .collect()
+}
+
 /// Specs `real:<file>` (committed LLVM-produced modules).
 pub fn real_specs() -> Vec<String> {
     list(&verif_root().join("corpus/realworld"), &["wasm"])
